@@ -35,6 +35,11 @@ try:
 except ImportError:
     pass
 try:
+    from . import ownerend
+    FAMILIES["ownerend"] = ownerend
+except ImportError:
+    pass
+try:
     from . import misc
     FAMILIES["misc"] = misc
 except ImportError:
